@@ -455,6 +455,8 @@ func init() {
 		if len(good) > 1 {
 			samples = append(samples, good[len(good)/3], good[len(good)-1])
 		}
+		nsent := c17SharedFamily(run)
+		fmt.Printf("C17: %d LMTP conversations in which the backend returns one sentinel *SMTPError for every recipient and again from a later callback\n", nsent)
 		// an error is also owed when the message stopped arriving (MC_Idle: the reader's
 		// time-out passed on by the backend is reported with the generic data code)
 		imc := modelCheck("MC_Idle", "MC_Idle.cfg", 8)
@@ -462,7 +464,7 @@ func init() {
 		fmt.Printf("C17: MC_Idle %d states; %d/%d stalled-DATA transitions replayed\n", imc.Distinct, ist.Covered, ist.Edges)
 		run.Finish("model_checking", evid.Coverage{
 			"states": mc.Distinct, "transitions": mc.Generated, "traces_validated_against_impl": len(good), "cases": len(cases),
-			"samples": samples, "checker_cmd": mc.Cmd,
+			"samples": samples, "checker_cmd": mc.Cmd, "sentinel_conversations": nsent,
 		}, []string{"message shapes over {ASCII word, non-ASCII word, enhanced-code look-alike, space}, up to 3 tokens per line and 2 (quick) / 3 (thorough) lines; codes {421,450,451,550,552,554}; enhanced code set / unset / explicitly absent; the four callbacks round-robin",
 			"shapes ambiguous on the wire by construction (no enhanced code sent and the text starts with a look-alike) are only checked for the wire form"})
 	}
